@@ -1,4 +1,7 @@
 open Prior
+(* Reads declarations / queries, one per line, and prints the model's outcome and state after each.
+   isf oracle: uniform(lo,hi) exactly (lo + (hi-lo)*(1-q)); any other distribution d is kept symbolic as
+   1000*d + q so that the harness can see which coordinate went through which distribution. *)
 let rec pos_of_int n = if n <= 1 then XH else if n land 1 = 0 then XO (pos_of_int (n lsr 1)) else XI (pos_of_int (n lsr 1))
 let rec int_of_pos = function XH -> 1 | XO p -> 2 * int_of_pos p | XI p -> 2 * int_of_pos p + 1
 let rec nat_of_int n = if n <= 0 then O else S (nat_of_int (n - 1))
@@ -6,37 +9,46 @@ let rec int_of_nat = function O -> 0 | S n -> 1 + int_of_nat n
 let z_of_int n = if n = 0 then Z0 else if n > 0 then Zpos (pos_of_int n) else Zneg (pos_of_int (-n))
 let int_of_z = function Z0 -> 0 | Zpos p -> int_of_pos p | Zneg p -> - int_of_pos p
 let q_of_int n = { qnum = z_of_int n; qden = XH }
+let q_of_str s = match String.split_on_char '/' s with
+  | [a; b] -> { qnum = z_of_int (int_of_string a); qden = pos_of_int (int_of_string b) }
+  | _ -> q_of_int (int_of_string s)
+let str_q q = let q = qred q in Printf.sprintf "%d/%d" (int_of_z q.qnum) (int_of_pos q.qden)
 let kid_of s = if s.[0] = 'A' then Auto (nat_of_int (int_of_string (String.sub s 1 (String.length s - 1)))) else Named (pos_of_int (int_of_string (String.sub s 1 (String.length s - 1))))
 let str_kid = function Auto n -> "A" ^ string_of_int (int_of_nat n) | Named p -> "S" ^ string_of_int (int_of_pos p)
-let str_free = function FUniform (lo, hi) -> Printf.sprintf "U(%d,%d)" (int_of_z lo.qnum) (int_of_z hi.qnum) | FDist d -> Printf.sprintf "D(%d)" (int_of_pos d)
-let str_dist = function DFree f -> str_free f | DFixed v -> Printf.sprintf "F(%d)" (int_of_z v.qnum) | DLink k -> "L(" ^ str_kid k ^ ")"
+let str_free = function FUniform (lo, hi) -> Printf.sprintf "U(%s,%s)" (str_q lo) (str_q hi) | FDist d -> Printf.sprintf "D(%d)" (int_of_pos d)
+let str_dist = function DFree f -> str_free f | DFixed v -> Printf.sprintf "F(%s)" (str_q v) | DLink k -> "L(" ^ str_kid k ^ ")"
 let show tag p = Printf.printf "%s keys=[%s] dists=[%s] dim=%d\n" tag (String.concat "," (List.map str_kid p.keys)) (String.concat "," (List.map str_dist p.dists)) (int_of_nat (dimensionality p))
 let parse_key = function "N" -> KNone | "B" -> KBad | s -> KStr (kid_of s)
 let parse_dist ws = match ws with
-  | ["U"; a; b] -> RFree (FUniform (q_of_int (int_of_string a), q_of_int (int_of_string b)))
+  | ["U"; a; b] -> RFree (FUniform (q_of_str a, q_of_str b))
   | ["D"; d] -> RFree (FDist (pos_of_int (int_of_string d)))
-  | ["F"; v] -> RFixed (q_of_int (int_of_string v))
+  | ["F"; v] -> RFixed (q_of_str v)
   | ["L"; k] -> RLink (kid_of k)
   | _ -> RBad
+let isf f q = match f with
+  | FUniform (lo, hi) -> qplus lo (qmult (qminus hi lo) (qminus (q_of_int 1) q))
+  | FDist d -> qplus (q_of_int (1000 * int_of_pos d)) q
+let err_name = function TypeErr -> "TypeError" | ValueErr -> "ValueError" | IndexErr -> "OTHER:IndexError"
 let () =
   let asis = Sys.argv.(1) = "asis" in
-  let ic = open_in Sys.argv.(2) in
+  let ic = if Array.length Sys.argv > 2 then open_in Sys.argv.(2) else stdin in
   let p = ref empty in
   (try while true do
     let l = input_line ic in
     match List.filter (fun s -> s <> "") (String.split_on_char ' ' l) with
     | ["RESET"] -> p := empty; print_endline "RESET"
+    | "U2P" :: us ->
+      (match unit_to_physical isf !p (List.map q_of_str us) with
+       | Some ph -> Printf.printf "PHYS %s\n" (String.concat " " (List.map str_q ph))
+       | None -> print_endline "PHYS ValueError")
+    | "U2D" :: us ->
+      (match unit_to_dictionary isf !p (List.map q_of_str us) with
+       | Some d -> Printf.printf "DICT %s\n" (String.concat " " (List.map (fun (k, v) -> str_kid k ^ "=" ^ str_q v) d))
+       | None -> print_endline "DICT ValueError")
     | k :: d ->
       let rk = parse_key k and rd = parse_dist d in
-      if asis then (match add_asis !p rk rd with
-        | Ok2 p' -> p := p'; show "OK" p'
-        | Err2 (p', TypeErr) -> p := p'; show "TypeError" p'
-        | Err2 (p', ValueErr) -> p := p'; show "ValueError" p'
-        | Err2 (p', IndexErr) -> p := p'; show "OTHER:IndexError" p')
-      else (match add_parameter !p rk rd with
+      (match (if asis then add_asis !p rk rd else add_parameter !p rk rd) with
         | Ok p' -> p := p'; show "OK" p'
-        | Err TypeErr -> show "TypeError" !p
-        | Err ValueErr -> show "ValueError" !p
-        | Err IndexErr -> show "OTHER:IndexError" !p)
+        | Err (p', e) -> p := p'; show (err_name e) p')
     | [] -> ()
   done with End_of_file -> ())
